@@ -22,3 +22,5 @@ pub mod tbmc;
 mod h_ind;
 #[cfg(all(kani, orx_concurrent_iter_verif))]
 mod h_tbmc;
+#[cfg(all(kani, orx_concurrent_iter_verif))]
+mod h_env;
